@@ -3,6 +3,7 @@ package main
 // SMT-LIB term helpers and the solver portfolio.
 
 import (
+	"regexp"
 	"bytes"
 	"context"
 	"fmt"
@@ -202,6 +203,48 @@ var solvers = []solverSpec{
 	{"cvc5", func(f string, t int) []string {
 		return []string{"cvc5", "--lang=smt2", "--produce-models", "--strings-exp", fmt.Sprintf("--tlimit=%d", t*1000), f}
 	}, nil},
+	{"z3/strabs", func(f string, t int) []string { return []string{"z3", fmt.Sprintf("-T:%d", t), f} }, abstractStrings},
+	{"z3-new/strabs", func(f string, t int) []string { return []string{"z3-new", fmt.Sprintf("-T:%d", t), f} }, abstractStrings},
+}
+
+// String abstraction. A query that uses strings only as opaque values (no str.* operation: equality, array indices and
+// uninterpreted functions only) is also posed with String replaced by an uninterpreted sort and the literals by
+// pairwise distinct constants. Every model of the original is a model of the abstraction, so `unsat` of the
+// abstraction is `unsat` of the original; any other answer of these racers is ignored. Solvers are far better at
+// quantifier instantiation over an uninterpreted sort than over the sequence theory.
+var smtTok = regexp.MustCompile(`"(?:[^"]|"")*"|\|[^|]*\||[()]|[^\s()|"]+|\s+`)
+
+func abstractStrings(q string) string {
+	if !strings.Contains(q, "String") || strings.Contains(q, "str.") || strings.Contains(q, "re.") || strings.Contains(q, "seq.") {
+		return ""
+	}
+	lits := map[string]string{}
+	var order []string
+	var b strings.Builder
+	for _, t := range smtTok.FindAllString(q, -1) {
+		switch {
+		case t == "String":
+			b.WriteString("StrU")
+		case strings.HasPrefix(t, "\""):
+			c, ok := lits[t]
+			if !ok {
+				c = fmt.Sprintf("strlit!%d", len(lits))
+				lits[t] = c
+				order = append(order, c)
+			}
+			b.WriteString(c)
+		default:
+			b.WriteString(t)
+		}
+	}
+	hdr := "(declare-sort StrU 0)\n"
+	for _, c := range order {
+		hdr += "(declare-const " + c + " StrU)\n"
+	}
+	if len(order) > 1 {
+		hdr += "(assert (distinct " + strings.Join(order, " ") + "))\n"
+	}
+	return hdr + b.String()
 }
 
 var solverSem = make(chan struct{}, 16)
@@ -235,6 +278,15 @@ func runQuery(dir, name, body string, timeoutS int, hasQuant bool, seed int) Sol
 				return
 			}
 			f := file
+			if s.prep != nil {
+				aq := s.prep(full)
+				if aq == "" {
+					ch <- SolverResult{Status: "cancelled", Solver: s.name}
+					return
+				}
+				f = file + ".strabs"
+				os.WriteFile(f, []byte(aq), 0o644)
+			}
 			if s.name == "cvc5" {
 				// cvc5 wants a logic and produce-models before it
 				f = file + ".cvc5"
@@ -279,6 +331,10 @@ func runQuery(dir, name, body string, timeoutS int, hasQuant bool, seed int) Sol
 				} else {
 					res.Status = "error"
 				}
+			}
+			if s.prep != nil && res.Status != "unsat" {
+				// only a refutation carries over from the abstraction
+				res.Status = "cancelled"
 			}
 			ch <- res
 		}()
